@@ -347,6 +347,7 @@ struct Gen {
 				}
 				o.b = alive_slot(D);
 				if(o.b < 0 || o.b == o.a) continue;
+				if(o.kind == O_CTOR_COPY && D > 0 && M.at(D, o.b).count() > 0 && rng.chance(1, 5)) o.var = 1;  // from a temporary array_ref over b's storage
 				if((o.kind == O_ASSIGN_COPY || o.kind == O_ASSIGN_MOVE || o.kind == O_SWAP) && rng.chance(1, 2)) {
 					// bias: a same-extent partner if one exists, preferring one on another arena
 					for(int i = 0; i < NSLOT; ++i)
@@ -517,6 +518,7 @@ struct Gen {
 				MView v;
 				if(!find_view(D, o.a, -1, nullptr, false, o.ca, v)) continue;
 				o.var = rng.below(T.tracked_is_triv ? 5 : 3);
+				if(rng.chance(1, 6)) o.var = 5;  // through operator-> of the elements iterators
 				if(o.var >= 3 && v.count() == 0) o.var = 0;
 				break;
 			}
